@@ -19,6 +19,8 @@ import bounded.instgen  # noqa: E402
 import bounded.text_roundtrip  # noqa: E402
 import bounded.ode  # noqa: E402
 import bounded.fom  # noqa: E402
+import bounded.tsp_instance  # noqa: E402
+import contracts.fom  # noqa: E402
 import contracts.ode  # noqa: E402
 import contracts.tsp_instance  # noqa: E402
 import contracts.bp_instance  # noqa: E402
@@ -236,9 +238,13 @@ PLANS["C10"] = Plan(
 )
 
 PLANS["C11"] = Plan(
-    "C11", "exploration",
+    "C11", "other",
+    functions=["moptipyapps.dynamic_control.objective:FigureOfMerit.set_raw",
+               "moptipyapps.dynamic_control.objective:FigureOfMerit.set_model"],
     bounded=[bounded.fom.harness],
-    explanation="bounded interleaving monitor on the real FigureOfMerit / FigureOfMeritLE objects: evaluate(x) after arbitrary "
+    explanation="proved (object state against the abstract view mode/collecting): set_raw restores the real equations and collects "
+                "iff model mode is supported; set_model raises iff it is not supported, otherwise installs the model and stops "
+                "collecting; both assign nothing but the two mode fields. bounded interleaving monitor on the real FigureOfMerit / FigureOfMeritLE objects: evaluate(x) after arbitrary "
                 "sequences of evaluate / initialize / set_model / set_raw / get_differentials equals evaluate(x) of a fresh "
                 "object and an independent recomputation of the documented aggregate; values in [0, 1e100] or 1e200; collected "
                 "training rows accounted exactly (grow only in raw mode, unchanged by get_differentials, cleared by initialize)",
@@ -254,7 +260,8 @@ _WRAP_OBJ = [OB + "bin_count_and_empty:BinCountAndEmpty.__init__", OB + "bin_cou
              OB + "bin_count_and_small:BinCountAndSmall.__init__", OB + "bin_count_and_small:BinCountAndSmall.evaluate",
              OB + "bin_count_and_last_small:BinCountAndLastSmall.evaluate", OB + "bin_count_and_last_small:BinCountAndLastSmall.__init__"]
 _WRAP_TTP = [ER + ":Errors.__init__", ER + ":Errors.evaluate"]
-PLANS["C01"].functions += _WRAP_ENC
+PLANS["C01"].functions += _WRAP_ENC + ["moptipyapps.binpacking2d.instance:Instance.__new__#dtype"]
+PLANS["C13"].functions += ["moptipyapps.binpacking2d.instance:Instance.__new__#dtype"]
 PLANS["C02"].functions += _WRAP_OBJ
 PLANS["C07"].functions += _WRAP_TTP
 PLANS["C07"].lemmas += ["even_prod"]
@@ -296,6 +303,7 @@ PLANS["C05"] = Plan(
                "moptipyapps.tsp.instance:Instance.__new__#copy-check"],
     lemmas=["cyc_is_tour", "rmax_ge", "rmin_le", "cyc_le_max", "cyc_ge_min", "tour_within_instance_bounds"],
     extra=[leancheck.lean_prover(["A3.lean"], "C05")],
+    bounded=[bounded.tsp_instance.harness],
     explanation="tour_length equals the cyclic edge sum for every matrix/permutation/dtype, no int64 overflow; block contracts "
                 "on tsp.Instance.__new__: upper bound = sum of row maxima, lower bound = sum of row minima (off-diagonal), "
                 "symmetry flag true iff the matrix is symmetric, zero diagonal and a positive entry per row enforced, stored "
@@ -310,11 +318,11 @@ PLANS["C05"] = Plan(
 
 
 META = {
-    "C11": {"text": "interleaving monitor (bounded): values of evaluate after arbitrary method sequences vs a fresh object and vs "
-                    "an independent recomputation; exact accounting of collected data",
-            "note": "exploration level: a deductive treatment of the object state (frames of set_raw/set_model/initialize, "
-                    "write-before-read of the result buffer) is designed in DESIGN.md C11 and not built yet",
-            "technique": "run-time contract monitor over operation sequences (bounded stand-in)"},
+    "C11": {"text": "mode switches proved against the abstract view (frames, collecting iff raw and supported); evaluate after "
+                    "arbitrary method sequences vs a fresh object and an independent recomputation: bounded interleaving monitor",
+            "note": "level 'other': two small method contracts proved; evaluate/initialize/get_differentials are covered by the "
+                    "bounded monitor only (E7: determinism of the simulation functions is assumed)",
+            "technique": "contract-based deductive verification of the mode-switch methods + run-time contract monitor"},
     "C10": {"text": "the integer/array logic around the integrator is proved (_is_ok, the figure-of-merit buffer computation and "
                     "its allocation); the simulation post-condition is monitored on a fixed family of programs including "
                     "diverging and NaN/inf controllers; termination/accuracy of scipy RK45 is outside any contract here",
